@@ -391,6 +391,12 @@ PROPS["C25"] = dict(
           "pdu_length > max_pdu_length; an invalid max_pdu_length is rejected; bytes::Buf accessors are never called beyond "
           "the bytes available (no panic)",
           expected_verified=6, witness=dict(cmd=_WR2 % "c25_pdus")),
+        V("C25.read_pdu_variable", "c25_read_pdu_variable.vrs",
+          "read_pdu_variable framing head (every variable item of A-ASSOCIATE-RQ / -AC): any strict prefix of the 4-byte item header + "
+          "declared content reads as Ok(None); a complete item hands exactly its declared content (type = byte 0, length = bytes 2..4 big "
+          "endian, content = the next `length` bytes and nothing of what follows) to the per-type decoding; bytes::Buf accessors are never "
+          "called beyond the bytes available (no panic)",
+          expected_verified=1, witness=dict(cmd=_WR2 % "c25_pdus")),
         N("C25.pdus", _WR2 % "c25_pdus",
           "on the compiled write_pdu / read_pdu (Kani aborts on both): well-formed PDUs of every type (A-ASSOCIATE-RQ / -AC with 0-2 "
           "presentation contexts and every kind of user-information sub-item, alone and all together; every A-ASSOCIATE-RJ and A-ABORT "
@@ -853,6 +859,9 @@ PROPS["C05"] = dict(
         V("C05.read_pdu_head", "c25_read_pdu_head.vrs",
           "read_pdu framing head on ANY buffer: bytes::Buf accessors never called beyond the bytes available (shared with C25)",
           expected_verified=6),
+        V("C05.read_pdu_variable", "c25_read_pdu_variable.vrs",
+          "read_pdu_variable framing head on ANY buffer: bytes::Buf accessors never called beyond the bytes available (shared with C25)",
+          expected_verified=1),
         V("C05.value_readers", "c07_stateful_decoder.vrs",
           "StatefulDecoder value readers: no arithmetic overflow / out-of-range cast / out-of-range slice for any declared length (shared with C07)",
           expected_verified=49, witness=dict(cmd=_W % "c07_positions")),
